@@ -313,6 +313,40 @@ def _cmp_matrix(rec, M, expect, clause, atol, nan_required):
         rec.fail(clause, "N=%d (i,j,lib,expected): %s" % (n, bad[:4]))
 
 
+def _climate_clause(rec, E, T, N, taumax, lag, sym, want):
+    from pyunicorn.core import GeoGrid
+    from pyunicorn.climate import ClimateData
+    from pyunicorn.climate.eventseries_climatenetwork import \
+        EventSeriesClimateNetwork
+
+    def build():
+        grid = GeoGrid(np.arange(float(T)), 10.0 * np.arange(N) - 40.0,
+                       15.0 * np.arange(N), silence_level=3)
+        data = ClimateData(np.array(E, dtype=float), grid, time_cycle=1,
+                           anomalies=True, silence_level=3)
+        return EventSeriesClimateNetwork(
+            data, method="ES", taumax=_taumax(taumax), lag=lag,
+            symmetrization=sym, silence_level=3)
+    ok, net = rec.call("climate_network_ES_%s_construct" % sym, _quiet, build)
+    if not ok:
+        return
+    rec.label("climate_network_sym=" + sym)
+    ok, S = rec.call("climate_network_similarity", net.similarity_measure)
+    if ok:
+        _cmp_matrix(rec, S, [[None if i == j else abs(want[i][j])
+                              for j in range(N)] for i in range(N)],
+                    "climate_network_es_%s_similarity_equals_formula" % sym,
+                    1e-6, False)
+    A = np.asarray(net.adjacency)
+    exp = np.array([[0 if i == j else int(abs(want[i][j]) > 1e-9)
+                     for j in range(N)] for i in range(N)])
+    sure = np.array([[i != j and not 0 < abs(want[i][j]) <= 1e-6
+                      for j in range(N)] for i in range(N)])
+    rec.check(A.shape == (N, N) and bool((A[sure] == exp[sure]).all()),
+              "climate_network_es_%s_links_positive_pairs" % sym,
+              lambda: "adjacency %s expected %s" % (A.tolist(), exp.tolist()))
+
+
 def oracle_matrix(case, rec):
     E = case["E"]                    # T rows of N bits
     T, N = len(E), len(E[0])
@@ -384,6 +418,16 @@ def oracle_matrix(case, rec):
             off = mats["directed"][~np.eye(N, dtype=bool)]
             rec.check(_in_unit(off), "matrix_es_directed_range_0_1",
                       lambda: _fmt(off))
+        # the climate-network class builds its similarity matrix from the
+        # same analysis (event matrix handed over as ClimateData, unit time
+        # steps): it must hold the formula values under its symmetrisation,
+        # and link exactly the pairs with a positive value
+        sym0 = sym_order[0]
+        want = ref.symmetrise(Dref, sym0)
+        if ts is None and N >= 2 and all(
+                want[i][j] is not None for i in range(N) for j in range(N)
+                if i != j):
+            _climate_clause(rec, E, T, N, taumax, lag, sym0, want)
     else:
         if any(not t for t in times):
             rec.label("series_without_events")
